@@ -1,3 +1,3 @@
 #!/bin/sh
 # development helper: type-check the harness inside ipa-core (no codegen)
-cd /repo && RUSTFLAGS="--cfg ipa_verif" IPA_VERIF_DIR=${IPA_VERIF_DIR:-/verif/harness} CARGO_TARGET_DIR=${VERIF_TARGET:-/verif/target/e1} CARGO_PROFILE_TEST_OPT_LEVEL=2 CARGO_PROFILE_DEV_OPT_LEVEL=2 CARGO_PROFILE_TEST_DEBUG=0 CARGO_PROFILE_DEV_DEBUG=0 cargo check -p ipa-core --lib --tests --offline "$@" 2>&1 | grep -v "^warning: unused\|^ *Checking\|^ *Compiling" | grep -B2 -A18 "^error" | head -${LINES_MAX:-150}
+cd ${VERIF_REPO:-/repo} && RUSTFLAGS="--cfg ipa_verif" IPA_VERIF_DIR=${IPA_VERIF_DIR:-/verif/harness} CARGO_TARGET_DIR=${VERIF_TARGET:-/verif/target/e1} CARGO_PROFILE_TEST_OPT_LEVEL=2 CARGO_PROFILE_DEV_OPT_LEVEL=2 CARGO_PROFILE_TEST_DEBUG=0 CARGO_PROFILE_DEV_DEBUG=0 cargo check -p ipa-core --lib --tests --offline "$@" 2>&1 | grep -v "^warning: unused\|^ *Checking\|^ *Compiling" | grep -B2 -A18 "^error" | head -${LINES_MAX:-150}
